@@ -212,7 +212,7 @@ def call_method(I, st, method, variant):
         info['stage'] = nm
         return vc.call(I, 'Recipe.end_stage', [r, NameV(nm)]), info
     if method == 'bake':
-        I.__dict__.setdefault('list_loop_handlers', {})['for step in self.steps'] = bake_loop_havoc
+        I.__dict__.setdefault('list_loop_handlers', {})['iter:self.steps'] = bake_loop_havoc
         return vc.call(I, 'Recipe.bake', [r]), info
     raise ValueError(method)
 
